@@ -307,3 +307,22 @@ P("C04",
   units=[
    U("c04.lifecycle", "c04", "TestLifecycle", "lifecycle safety and truthful status over generated command/mutation histories", Q(128, 16, 900), T(5000, 16), min_nontrivial_frac=0.3, shrinktime="90s"),
   ])
+
+P("C05",
+  level="fault_enumeration",
+  level_text="Fault injection at generated and enumerated crash points: a client on the real file storage (wrapped so that the storage write itself can SIGKILL the process) downloads a generated layout "
+             "from an honest seeder with the resume-write interval at 1..5 ms, and dies at the entry or exit of the k-th storage write (after a generated delay), after completion, after stop or "
+             "after a verification request; optionally some data files are then removed. The parent then (a) reopens the bbolt file and decodes the torrent record, (b) computes from the bytes on disk the set V "
+             "of pieces that verify, (c) starts a fresh client on the same database and directory with no peers and compares what it reports (Stats, bitfield / have messages seen by a probing peer) with V: never "
+             "more than V; with nothing removed the persisted bitfield itself must be within V; (d) every data file is open with O_SYNC/O_DSYNC. The enumeration unit kills at EVERY write entry and exit "
+             "(x 2 delays) of small layouts, the sampling unit draws crash points over larger ones.",
+  level_note="Trusted: SIGKILL semantics of the sandbox kernel (page cache survives the kill, so a missing sync cannot be observed directly: the open-flag check is the stand-in); harness/model for hashes; "
+             "the scripted seeder. Power-loss below the page cache is out of reach. Crash instants between two storage writes are covered only through the generated delays.",
+  technique="fault injection with property-based generation (rapid) and exhaustive enumeration of write-entry/exit crash points per generated layout; subset oracle against on-disk ground truth",
+  rule="sampling unit: layout x crash point kind x k x delay x resume interval x removed files; non-trivial = persisted bits with an incomplete disk image, or files removed. "
+       "enumeration unit: layout; every (write k, entry|exit, delay) is executed; non-trivial = >= 2 storage writes",
+  assumptions=["the first child is killed by its own storage wrapper, the restarted client uses the client's own file storage"],
+  units=[
+   U("c05.crash", "c05", "TestCrash", "sampled crash points: resume state never ahead of disk, missing files re-checked, DB reopens", Q(96, 16, 900), T(3000, 16), min_nontrivial_frac=0.15, shrinktime="40s"),
+   U("c05.enum", "c05", "TestCrashEnum", "all write entry/exit crash points of small layouts (Counts: crash-points-enumerated)", Q(8, 8, 900), T(160, 16), shrinktime="10s"),
+  ])
